@@ -373,3 +373,9 @@ def r8(c):
                  'the select! draws its starting branch with thread_rng_n (a `biased;` select polls the first branch first every time: a branch that is always ready starves the others)',
                  '%d branches, random start: %s' % (len(s['futures']), bool(rng)), s['poll_fn'].loc())
     c.floor('select! sites', n, 4)
+
+
+@rule('C07', 'R07.9', 'the invariant behind the receive buffer\'s index arithmetic (begin <= end <= 260, recorded in R07.1) is kept by its only writers: clear() zeroes both indices, compaction rebases both, reads advance begin only after a length check (C05/R05.6)')
+def r9(c):
+    from rules import c05
+    c05.r6(c)
